@@ -1028,6 +1028,50 @@ def op_history_case(ck: Check, drv, rng, fails, found):
             return
 
 
+def energy_formula_case(ck: Check, rng):
+    """energy_quadratic_dense_partial against the REAL integrator: symmetric integer curvature A, symmetric dyadic
+    inverse mass K (dense) or diagonal, one step, dyadic (q,p,eps): the energy change computed exactly (Fractions)
+    from the implementation's output must equal eps^3 (r.KAKp1/4 + eps/8 p1.KAKAKp1) exactly"""
+    n = rng.randint(1, 4)
+    sym = lambda lo, hi, bits: [[0.0] * n for _ in range(n)]
+    A, K = sym(0, 0, 0), sym(0, 0, 0)
+    for i in range(n):
+        for j in range(i, n):
+            A[i][j] = A[j][i] = float(rng.randint(-3, 3))
+            K[i][j] = K[j][i] = dyad(rng, -2, 2, 1) if i != j else dyad(rng, 0.5, 3, 1)
+    diag = rng.random() < 0.3
+    if diag:
+        for i in range(n):
+            for j in range(n):
+                if i != j:
+                    K[i][j] = 0.0
+    case = {"kind": "diag" if diag else "dense", "sizes": [n], "n": n, "steps": 1, "eps": rng.choice([0.5, 0.25, 1.0, 0.75]),
+            "im": [K[i][i] for i in range(n)] if diag else K, "q": [dyad(rng, -4, 4, 2) for _ in range(n)],
+            "p": [dyad(rng, -4, 4, 2) for _ in range(n)], "G": A, "b": [float(rng.randint(-2, 2)) for _ in range(n)]}
+    r_ = impl_integrate(case)
+    F = Fraction
+    Af, Kf = [[F(x) for x in row] for row in A], [[F(x) for x in row] for row in K]
+    mv = lambda M, v: [sum(M[i][j] * v[j] for j in range(n)) for i in range(n)]
+    dot = lambda u, v: sum(a * b for a, b in zip(u, v))
+    H = lambda q, p: dot(q, mv(Af, q)) / 2 + dot([F(x) for x in case["b"]], q) + dot(p, mv(Kf, p)) / 2
+    ck.case(("energy", n, case["kind"], case["eps"], tuple(case["q"]), tuple(case["p"])),
+            {"via": "one leapfrog step, energy change vs the proved polynomial", "n": n, "kind": case["kind"]},
+            bucket="exact/energy-formula/" + case["kind"])
+    if r_[0] == "EXC":
+        ck.mismatch("implementation raised (energy formula case)", {"case": case, "error": r_[1]})
+        return
+    q0, p0 = [F(x) for x in case["q"]], [F(x) for x in case["p"]]
+    q1, p1o = [fr(x) for x in r_[0]], [fr(x) for x in r_[1]]
+    e = F(case["eps"])
+    rr = [a + F(b) for a, b in zip(mv(Af, q0), case["b"])]
+    p1 = [a - e / 2 * b for a, b in zip(p0, rr)]
+    kakp = mv(Kf, mv(Af, mv(Kf, p1)))
+    want = e ** 3 * (dot(rr, kakp) / 4 + e / 8 * dot(p1, mv(Kf, mv(Af, kakp))))
+    got = H(q1, p1o) - H(q0, p0)
+    if got != want:
+        ck.mismatch("one-step energy change differs from the proved polynomial", {"case": case, "impl": float(got), "formula": float(want)})
+
+
 def run(ck: Check):
     ck.rule = (
         "one case = one call of the REAL LeapfrogIntegrator.__call__ or HMCOperator.step() on a concrete "
@@ -1073,6 +1117,8 @@ def run(ck: Check):
                     ran.append(case)
             for i in range(n_op):
                 operator_case(ck, drv, rng, fails, with_nan=(i % 3 == 2))
+            for i in range(60 if not thorough else 300):
+                energy_formula_case(ck, rng)
             for i in range(n_hist):
                 history_case(ck, drv, rng, fails, found)
                 op_history_case(ck, drv, rng, fails, found)
